@@ -4,11 +4,11 @@ package main
 
 import (
 	"fmt"
-	"os"
-	"runtime/debug"
 	"go/constant"
 	"go/token"
 	"go/types"
+	"os"
+	"runtime/debug"
 	"sort"
 	"strings"
 
@@ -189,49 +189,50 @@ type heapInfo struct {
 }
 
 type ctx struct {
-	cellRootType map[int]types.Type
-	allocated    []term
-	allocFrom    int
-	siteHit      map[string]bool
-	cbInvHit     map[string]bool
-	siteFr       *frame // frame and block of the call being executed in the verified function (or a closure of it)
-	siteBlk      *ssa.BasicBlock
-	siteCtx      string
-	knownLen     map[string]int
-	ghostConst   map[string]term
-	inInv        bool
-	inMerge      bool
-	critical     int
-	typeIDs      map[string]int
-	noAllocFacts bool
-	lastInst     *ssa.Function
-	frames       []*frame
+	cellRootType  map[int]types.Type
+	allocated     []term
+	allocFrom     int
+	lastStore     map[string][2]term
+	siteHit       map[string]bool
+	cbInvHit      map[string]bool
+	siteFr        *frame // frame and block of the call being executed in the verified function (or a closure of it)
+	siteBlk       *ssa.BasicBlock
+	siteCtx       string
+	knownLen      map[string]int
+	ghostConst    map[string]term
+	inInv         bool
+	inMerge       bool
+	critical      int
+	typeIDs       map[string]int
+	noAllocFacts  bool
+	lastInst      *ssa.Function
+	frames        []*frame
 	lastAllocType map[string]types.Type
-	memo         map[string][]memoEntry
-	readLog      []map[string]string
-	w        *world
-	con      *Contract
-	fn       *ssa.Function
-	mode     string // seq | itf
-	decls    []string
-	seen     map[string]bool
-	fresh    int
-	hinfo    map[string]heapInfo
-	obls     []*obligation
-	spec     int
-	paths    int
-	skolem   map[string]val
-	skolemOv map[string]val // instantiation of universally valid facts: overrides a skolem variable
-	reqFacts []*univFact
-	params   map[string]val
-	pre      *state
-	errs     []string
-	siteOrd  map[string]int
-	maxPaths int
-	alias    map[string]string // heap key aliasing (interface conformance)
-	nodeT    *types.Named      // concrete node type under conformance check
-	assumed  map[string]bool   // trusted items actually used
-	depthCap int
+	memo          map[string][]memoEntry
+	readLog       []map[string]string
+	w             *world
+	con           *Contract
+	fn            *ssa.Function
+	mode          string // seq | itf
+	decls         []string
+	seen          map[string]bool
+	fresh         int
+	hinfo         map[string]heapInfo
+	obls          []*obligation
+	spec          int
+	paths         int
+	skolem        map[string]val
+	skolemOv      map[string]val // instantiation of universally valid facts: overrides a skolem variable
+	reqFacts      []*univFact
+	params        map[string]val
+	pre           *state
+	errs          []string
+	siteOrd       map[string]int
+	maxPaths      int
+	alias         map[string]string // heap key aliasing (interface conformance)
+	nodeT         *types.Named      // concrete node type under conformance check
+	assumed       map[string]bool   // trusted items actually used
+	depthCap      int
 }
 
 func (x *ctx) fail(format string, a ...any) {
@@ -515,6 +516,9 @@ func (x *ctx) readLeafHeap(st *state, l *loc, key string, s srtT) term {
 		r = term{fmt.Sprintf("(select (select %s %s) %s)", a, l.base.s, l.idx.s), s}
 	} else {
 		a := x.arr(st, key, false, s)
+		if ls, ok := x.lastStore[a]; ok && ls[0].s == l.base.s && ls[1].srt.name == s.name {
+			return ls[1]
+		}
 		r = term{fmt.Sprintf("(select %s %s)", a, l.base.s), s}
 	}
 	if s == sRef && key != "Len" {
@@ -589,6 +593,11 @@ func (x *ctx) writeLeafHeap(st *state, l *loc, key string, v term) {
 	}
 	a := x.arr(st, key, false, v.srt)
 	x.setArr(st, key, fmt.Sprintf("(store %s %s %s)", a, l.base.s, v.s))
+	// store forwarding: a read of the same location from this array version yields the stored term
+	if x.lastStore == nil {
+		x.lastStore = map[string][2]term{}
+	}
+	x.lastStore[st.heap[x.akey(key)]] = [2]term{l.base, v}
 }
 
 func (x *ctx) readHeap(st *state, l *loc, key string, t types.Type) val {
